@@ -9,7 +9,7 @@ PROP = "C12"
 LEVEL = "exploration"
 RULE = ("seeded sampler executions (incl. crash->resume and re-run); at the end of every completed run: beta, ESS>=n_total and evidence()==RefMIS logZ(1) exactly, then all 2^4 "
         "combinations of posterior(resample, trim_importance_weights, return_blobs, return_logw) x ess_trim {0.5,0.9,0.99,0.999} x bins_trim {10,100,1000}: weights, equal lengths, "
-        "row-by-row identity (logL==L(x), blob==B(x), logw == reference log-weight of that row); distinct = configuration/scenario class; non-trivial = run completed")
+        "row-by-row identity (logL==L(x), blob==B(x), logw == reference log-weight of that row); plus constructed checkpoints resumed by a real run whose last step lands inside the termination window (the run ends with beta < 1); distinct = configuration/scenario class; non-trivial = run completed")
 ASSUMPTIONS = ["RefMIS is the oracle for evidence and per-row log-weights"]
 
 
@@ -21,10 +21,58 @@ def cases(seed, tier):
         r = random.Random(sch.np_seed(f"c12.{k}"))
         c = wp.std_case(r, sch.np_seed(f"s{k}"), kinds=("gauss", "bimodal", "expedge", "hole", "corr"), scenarios=("plain", "plain", "crash_resume", "rerun", "resume_final", "load_only", "extra_samples", "like_raise"))
         out.append(c)
+    # constructed checkpoints (tsim/constructed.py): a real resumed run whose last temperature step lands at a chosen beta*, mostly inside the
+    # termination window (1-1e-4, 1): the run may then stop with beta < 1, and evidence() must still be the evidence at beta = 1
+    for k in range(n // 6):
+        r = random.Random(sch.np_seed(f"c12.con{k}"))
+        star = r.choice([1 - 3e-5, 1 - 5e-5, 1 - 2e-5, 1 - 9e-5, 1 - 7e-5, 1 - 2e-4, 0.999, r.uniform(0.5, 0.99)])
+        ratio = r.choice([1.0, 1.0, 2.0])
+        out.append(dict(constructed=True, seed=sch.np_seed(f"con{k}") % (2**31), d=r.choice([1, 2]), N=r.choice([16, 32, 64]), ess_ratio=ratio, T=int(ratio) + r.choice([1, 2, 3]),
+                        spread=r.choice([1.0, 3.0, 10.0]), beta_star=star, kernel=r.choice(["tpcn", "rwm"])))
     return out
 
 
+def run_constructed(case):
+    import json
+
+    from .. import constructed, targets as T
+    from ..world import World, forget
+
+    N = case["N"]
+    built = constructed.build(case, n_total=N)
+    if built is None:
+        return dict(violations=[], stats=dict(constructed_unsuitable=1), probes={}, digest="unsuitable", distinct_key=None, nontrivial=False)
+    blob, hist, target = built
+    mon = PosteriorMon(random.Random(case["seed"] + 3), PROP, full=False)
+    cfg = dict(n_particles=N, ess_ratio=case["ess_ratio"], clustering=False, sample=case.get("kernel", "tpcn"), random_state=case["seed"] % 1000)
+    w = World(dict(seed=case["seed"], target=dict(T.spec_gauss(d=case["d"], lo=0.0, hi=1.0, mu=0.5, sig=0.2), kind="gauss"), cfg=cfg), monitors=[mon])
+    beta_end, exc = None, None
+    with w.incarnation() as inc:
+        path = constructed.write(w, blob)
+        s = inc.new_sampler()
+        try:
+            s.run(n_total=N, resume_state_path=path, progress=False)
+            beta_end = float(s.state.get_current("beta"))
+            # the imported history is synthetic (its logL values are not the target's): only the postconditions that speak about the stored history
+            # (beta, ESS >= n_total, evidence() == MIS logZ(1)) are judged here, not the row-by-row identity of posterior()
+            from ..oracles import run_postconditions
+
+            run_postconditions(w, s, N, PROP, dict(phase="resumed"))
+        except Exception as e:
+            exc = f"{type(e).__name__}: {e}"
+            forget(e)
+    if w.escapes:
+        raise RuntimeError("; ".join(w.escapes))
+    if beta_end is not None and beta_end < 1.0:
+        w.probe("run_ended_with_beta_below_one")
+    return dict(violations=list(w.violations), stats=dict(constructed_runs=1, **({"constructed_run_raised": 1} if exc else {})), probes=dict(w.probes), digest=json.dumps([beta_end, len(w.violations), exc]),
+                distinct_key=f"constructed/T{case['T']}/N{N}/r{case['ess_ratio']}/b*{case['beta_star']:.6f}/{case.get('kernel')}", nontrivial=beta_end is not None,
+                sample=dict(kind="constructed checkpoint, resumed", beta_star=case["beta_star"], beta_end=beta_end, exc=exc))
+
+
 def run_case(case):
+    if case.get("constructed"):
+        return run_constructed(case)
     mon = PosteriorMon(random.Random(case["seed"] + 3), PROP, full=True)
     out, w, info = wp.run_with(case, [mon])
     out["stats"].update(posterior_option_combinations=mon.combos)
@@ -33,4 +81,11 @@ def run_case(case):
     return out
 
 
-shrink = wp.generic_shrink
+def shrink(case):
+    if case.get("constructed"):
+        if case["T"] > 1:
+            yield dict(case, T=1)
+        if case["d"] > 1:
+            yield dict(case, d=1)
+        return
+    yield from wp.generic_shrink(case)
